@@ -114,7 +114,7 @@ def _chain(pid, req, t3=None):
 
 _chain("C03", ["ante_accept_sound", "wrong_key_rejected", "mutation_rejected", "low_fee_rejected", "fee_from_signer"])
 _chain("C11", ["reject_frame", "readonly_frame", "undecodable_frame", "accept_shape"])
-_chain("C17", ["param_change_authorised", "change_only_that_key", "dao_authorised", "gov_unauthorised_rejected", "block_ops_keep_gov", "gov_change_authorised", "gov_run", "acl_handover", "acl_drop", "acl_replace", "acl_undecodable"])
+_chain("C17", ["param_change_authorised", "change_only_that_key", "dao_authorised", "gov_unauthorised_rejected", "block_ops_keep_gov", "gov_change_authorised", "gov_run", "acl_handover", "acl_drop", "acl_replace", "acl_undecodable", "upgrade_sets_plan"])
 
 _chain("C07", ["slashAmount_exact", "slash_exact", "slash_noop", "doublesign_burns_all", "evidence_expired_ignored", "evidence_refused"])
 _chain("C08", ["window_step", "window_init", "counter_is_window_count", "window_frame", "minSigned_rounding"])
